@@ -130,6 +130,62 @@ fn structural() -> Vec<String> {
     v
 }
 
+fn run_batch(case: &Case, cov: &mut Cov) -> Verdict {
+    let files: Vec<(String, String)> = case["files"].as_object().map(|m| m.iter().map(|(k, v)| (k.clone(), v.as_str().unwrap_or("").to_string())).collect()).unwrap_or_default();
+    let config = case["config"].as_str().unwrap_or("{}");
+    // which files darklua's own parser accepts decides who must have an output
+    let mut parsable: Vec<&str> = vec![];
+    let mut unparsable: Vec<&str> = vec![];
+    // (retain_lines reads the file with its tokens, the other generators without: a shebang line is only rejected by the former)
+    let with_tokens = config.contains("retain_lines");
+    for (p, t) in &files {
+        match guarded(|| if with_tokens { dl::parse_tokens(t).is_ok() } else { dl::parse(t).is_ok() }) {
+            Ok(true) => parsable.push(p),
+            Ok(false) => unparsable.push(p),
+            Err(_) => return Verdict::discard("the parser panics on a file of the batch (judged by the single-file cases)"),
+        }
+    }
+    let out = match guarded(|| dl::process_memory(&files, config, "src", Some("out"), "out")) {
+        Ok(o) => o,
+        Err(msg) => return Verdict::violated("batch:panic", format!("processing the batch panics: {}\nfiles {:?}", msg, files.iter().map(|(p, _)| p).collect::<Vec<_>>())),
+    };
+    if out.errors.iter().any(|e| e.starts_with("config:")) {
+        return Verdict::discard("configuration rejected");
+    }
+    cov.hit("batch_cases");
+    cov.add("batch_files", files.len() as u64);
+    cov.add("batch_unparsable_files", unparsable.len() as u64);
+    for p in &unparsable {
+        let dest = format!("out/{}", &p[4..]);
+        if out.files.contains_key(&dest) {
+            return Verdict::violated("batch:output-for-unparsable-file", format!("`{}` cannot be parsed but `{}` was written", p, dest));
+        }
+        if !out.errors.iter().any(|e| e.contains(*p)) {
+            return Verdict::violated("batch:failure-not-reported", format!("`{}` cannot be parsed but no reported error names it; errors: {:?}", p, out.errors));
+        }
+    }
+    let mut rule_failures = 0;
+    for p in &parsable {
+        let dest = format!("out/{}", &p[4..]);
+        if !out.files.contains_key(&dest) {
+            // a rule may fail on a parsable file: then an error has to name it; otherwise the batch stopped half way
+            if out.errors.iter().any(|e| e.contains(*p)) {
+                rule_failures += 1;
+                continue;
+            }
+            return Verdict::violated(
+                "batch:file-skipped",
+                format!("`{}` parses, is named by no error, and has no output: the batch did not process it (unparsable files of the batch: {:?}; errors: {:?})", p, unparsable, out.errors.iter().map(|e| e.lines().next().unwrap_or("").to_string()).collect::<Vec<_>>()),
+            );
+        }
+    }
+    if unparsable.is_empty() && rule_failures == 0 && !out.ok {
+        return Verdict::violated("batch:error-without-cause", format!("every file parses and has an output but the run reports errors: {:?}", out.errors));
+    }
+    cov.eval(if !unparsable.is_empty() && !parsable.is_empty() { Some(hash64(format!("{:?}|{}", files, config).as_bytes())) } else { None });
+    Verdict::Held
+}
+
 fn mutate(r: &mut Rng, seed: &str) -> String {
     let mut s: Vec<char> = seed.chars().collect();
     let n = 1 + r.below(4);
@@ -322,6 +378,31 @@ impl Monitor for C12 {
             return Some(json!({"kind": "truncations", "text": self.seeds[i]}));
         }
         let mut r = case_rng("C12", seed, index);
+        if r.chance(1, 12) && !self.seeds.is_empty() {
+            // a batch: several files in one run, some of which cannot be parsed; every other file has to be written and
+            // every failure has to come back as an error value naming its file
+            let n = 2 + r.below(6);
+            let mut files = serde_json::Map::new();
+            let mut bad: Vec<String> = vec![];
+            for i in 0..n {
+                let dir = *r.pick(&["src", "src/a", "src/a/b", "src/z"]);
+                let path = format!("{}/f{}.{}", dir, i, if r.chance(1, 4) { "luau" } else { "lua" });
+                let text = if r.chance(1, 3) {
+                    bad.push(path.clone());
+                    (*r.pick(&["local = 1", "return (", "if x then", "x = = 2", "function f( end", "\"unterminated", "}", "local t = {1, 2", "for i = 1 do end", "return 1 2"])).to_string()
+                } else if r.bool() {
+                    self.seeds[r.below(self.seeds.len())].clone()
+                } else {
+                    let mut f = Feat::default();
+                    f.max_stmts = 3 + r.below(10);
+                    print_block(&prog::generate(&mut r, f).0)
+                };
+                files.insert(path, json!(text));
+            }
+            let rules: Vec<String> = if r.bool() { dl::DEFAULT_RULES.iter().map(|x| format!("'{}'", x)).collect() } else { vec![] };
+            let g = *r.pick(&["'retain_lines'", "'dense'", "'readable'"]);
+            return Some(json!({"kind": "batch", "files": files, "bad": bad, "config": dl::config_json(&rules, g), "text": ""}));
+        }
         match r.below(10) {
             0 => {
                 let n = r.below(60);
@@ -396,6 +477,7 @@ impl Monitor for C12 {
                 Verdict::Held
             }
             Some("process") => self.run_process(text, case["config"].as_str().unwrap_or("{}"), case, cov),
+            Some("batch") => run_batch(case, cov),
             _ => {
                 let ok = dl::parse(text).is_ok();
                 let ok2 = dl::parse_tokens(text).is_ok();
